@@ -345,7 +345,7 @@ def g_opt(fn, edge):
     if not want_err:
         for h, facts in _flag_facts(fn).items():
             if sig in facts:
-                for (sb, tt, ft) in bool_branch(fn, h):
+                for (sb, tt, ft) in bool_branch(fn, h, as_variable=True):
                     if tt != ft and edge_dominates(fn, sb, tt, edge.bb) and not _reassigned_between(fn, sig, tt, edge.bb, producers):
                         return True, "dominated by the true edge of flag `%s`, which is only true when is_some(%s) held" % (
                             fn.local_name(h) or "_%d" % h, pretty_sig(sig))
